@@ -177,6 +177,13 @@ func aclScenario(w *world.World, rng *rand.Rand, rec *mon.Recorder, nClients int
 				a = deliver(s, m2, "gov-upgrade")
 				judge("upgrade", s, "other-type", a, false, nil)
 				rec.Count("upgrade-type-refused", 1)
+				// mixed payload: a client state of another type together with a consensus state of the existing type
+				c1, c2 := vnet.NewTMClientState(o, vnet.DefaultClientCfg)
+				_ = c1
+				m1, _ := clienttypes.PackConsensusState(c2)
+				m3 := &clienttypes.MsgUpgradeClient{Title: "t", Description: "d", ChainName: o.Name, ClientState: b1, ConsensusState: m1, Authority: s.authority(X)}
+				a = deliver(s, m3, "gov-upgrade")
+				judge("upgrade", s, "other-type-client-state-with-same-type-consensus-state", a, false, nil)
 				cur, _ := X.App.TIBCKeeper.ClientKeeper.GetClientState(X.Ctx(), o.Name)
 				if cur == nil || cur.ClientType() != exported.Tendermint || (!s.isGov && string(clientBytes(o.Name)) != string(before)) {
 					rec.Violate("upgrade-changed-client-type-or-state", map[string]string{"signer": s.name}, o.Name, w.Witness(6))
@@ -228,12 +235,17 @@ func aclScenario(w *world.World, rng *rand.Rand, rec *mon.Recorder, nClients int
 			return
 		}
 		X.GovExec(&clienttypes.MsgRegisterRelayer{Title: "t", Description: "d", ChainName: otherName, Relayers: []string{foreignRelayer.Addr.String()}, Authority: gov})
+		// chains whose names extend this chain's name (the registry is keyed by name): their relayers must not count
+		prefixRelayer := X.Accounts[1]
+		for _, ext := range []string{o.Name + "-beta", o.Name + "0"} {
+			X.GovExec(&clienttypes.MsgRegisterRelayer{Title: "t", Description: "d", ChainName: ext, Relayers: []string{prefixRelayer.Addr.String()}, Authority: gov})
+		}
 		type who struct {
 			name string
 			acc  *vnet.Account
 			ok   bool
 		}
-		for _, x := range []who{{"relayer-of-other-chain", foreignRelayer, false}, {"arbitrary-account", X.Accounts[2], false}, {"relayer-of-this-chain", X.Relayer, true}} {
+		for _, x := range []who{{"relayer-of-other-chain", foreignRelayer, false}, {"relayer-of-chain-with-longer-name", prefixRelayer, false}, {"arbitrary-account", X.Accounts[2], false}, {"relayer-of-this-chain", X.Relayer, true}} {
 			w.Do(&world.Action{Kind: "block", On: o, Exec: func(sdk.Context) error { return nil }})
 			m, _ := clienttypes.NewMsgUpdateClient(o.Name, vnet.UpdateHeader(X, o, 0), x.acc.Addr)
 			a := &world.Action{Kind: "update", On: X, From: o, Msgs: []sdk.Msg{m}, Signer: x.acc}
